@@ -221,7 +221,7 @@ func execLong(c pair) kit.Outcome {
 
 // TestLong: long star-dense patterns: agreement with the reference and termination within a bound.
 func TestLong(t *testing.T) {
-	kit.Check(t, kit.Spec[pair]{Sub: "pair", Quick: 6000, Thorough: 150000,
+	kit.Check(t, kit.Spec[pair]{Sub: "pair", Quick: 6000, Thorough: 500000,
 		Gen:  func(t *rapid.T) pair { return pair{kit.B(genPattern(t)), kit.B(genSubject(t))} },
 		Exec: execLong})
 }
@@ -282,7 +282,7 @@ func execKeys(c keysCase) kit.Outcome {
 
 // TestKeys: KEYS on a populated keyspace returns exactly the matching live keys (as a set).
 func TestKeys(t *testing.T) {
-	kit.Check(t, kit.Spec[keysCase]{Sub: "keys", Quick: 1500, Thorough: 30000,
+	kit.Check(t, kit.Spec[keysCase]{Sub: "keys", Quick: 1500, Thorough: 100000,
 		Gen: func(t *rapid.T) keysCase {
 			n := rapid.IntRange(1, 12).Draw(t, "nkeys")
 			c := keysCase{}
